@@ -8,7 +8,7 @@ written down here -- never by parsing text.
 import copy
 import os
 
-from .. import core, gen_rust
+from .. import core, gen_rust, prng
 from ..engine import Verdict
 
 ID = "C13"
@@ -416,6 +416,23 @@ def generate(rng, tier):
         m.status[igd] = "E"
         ignore_pats = list(ignore_pats) + [rng.choice(["igd/ig_gen.rs", "/igd/", "igd/*.rs"])]
         m.feats.add("ignoredotdot")
+    igq = None
+    mr = prng.Rng(prng.mix(rng.seed, "c13-dotdot-mirror"))  # a side stream: the main stream stays what it was
+    if "ignoredotdot" in feats and root_status == "E" and lane == "normal" and "stemdir" not in feats and mr.chance(50):
+        # the mirror image: a file in an ignored directory declares a module that lives outside that directory, through
+        # a path that climbs out of it; that file is matched by no entry
+        rd = os.path.dirname(root)
+        igq = os.path.join(rd, "igq", "mod.rs")
+        plain = os.path.join(rd, "igq_plain.rs")
+        m.files[igq] = '#[path = "../igq_plain.rs"]\nmod igq_plain;\n' + gen_rust.tiny_unformatted("in_igq")
+        m.files[plain] = gen_rust.tiny_unformatted("igq_plain")
+        m.files[root] = insert_decls(m.files[root], "mod igq;\n")
+        m.status[igq] = "E"
+        m.status[plain] = "E"
+        # (when the whole run fails for the known reason F61 every file carries that tag)
+        tags[plain] = "all-candidates-opt-out" if "all-candidates-opt-out" in tags.values() else "declared-in-ignored-directory-through-dotdot"
+        ignore_pats = list(ignore_pats) + [mr.choice(["igq/", "igq", "**/igq/"])]
+        m.feats.add("ignoredotdot")
     if ignore_pats:
         cfg.append("ignore = [%s]" % ", ".join('"%s"' % p for p in ignore_pats))
         for f in list(m.status):
@@ -423,6 +440,9 @@ def generate(rng, tier):
             if m.status[f] == "E" and ignored(ignore_pats, relc):
                 m.status[f] = "X"
                 m.why[f] = "matched by ignore %s" % ignore_pats
+    if igq:
+        m.status[igq] = "X"
+        m.why[igq] = "matched by ignore %s" % ignore_pats
     if igd:
         m.status[igd] = "X"
         m.why[igd] = "ignored-through-dotdot-spelling (entry of the ignore list, file declared as ../<dir>/igd/ig_gen.rs)"
@@ -608,8 +628,35 @@ def execute(case):
         if lane == "stdin":
             inv = {"argv": [], "cwd": os.path.dirname(root) or ".", "hashseed": case["hashseed"],
                    "stdin": world["files"][root]}
+        # the project file that carries the exclusions cannot be examined (EACCES / ELOOP / EIO on its stat): the run
+        # may fail for this crate, it may not carry on as if the file were absent and format what it excludes
+        cfgfault = None
+        cfgp = os.path.join(case["base"], "rustfmt.toml")
+        if (lane == "normal" and cfgp in world["files"] and case["hashseed"] % 5 == 0
+                and any(s == "X" and ("ignore" in case["why"].get(f, "") or "generated" in case["why"].get(f, "")) for f, s in status.items())):
+            cfgfault = [13, 40, 5][case["hashseed"] // 5 % 3]
+            inv["plan"] = ["* stat 1 %s errno %d" % (os.path.normpath(cfgp), cfgfault)] + inv["plan"]
+            v.planned("config-stat-error")
+        # --backup: the scratch names <stem>.tmp / <stem>.bk belong to the protocol only for files that are rewritten; a
+        # neighbour that happens to be called <stem>.tmp is a file no module declares
+        backup, bdecoy = False, None
+        if lane == "normal" and not cfgfault and case["hashseed"] % 7 == 3 and case["spelling"] != "symlink" and "symlinkmod" not in case["features"]:
+            backup = True
+            inv["argv"] = ["--backup"] + inv["argv"]
+            cands = sorted(f for f, s in status.items() if s == "E" and f.endswith(".rs") and f != "pre.rs")
+            if cands and case["hashseed"] % 2:
+                bdecoy = os.path.splitext(cands[(case["hashseed"] // 14) % len(cands)])[0] + ".tmp"
+                if bdecoy in world["files"]:
+                    bdecoy = None
+                else:
+                    world["files"][bdecoy] = "notes of the user, not a Rust source\n"
+                    sc.fresh_world(world)
+                    if case.get("prelude") or True:
+                        snap0 = core.snapshot(sc.root)
         res = core.run_inv(sc, inv)
         v.account(res)
+        if cfgfault and not any(e.fault and "on stat " in e.raw for e in res.events):
+            cfgfault = None
         snap1 = core.snapshot(sc.root)
         diff = core.snap_diff(snap0, snap1)
         changed = {os.path.normpath(p) for p in diff}
@@ -657,6 +704,17 @@ def execute(case):
                 v.add("C13:write-despite-bad-module|%s" % case["fault"]["kind"], "%s: %s" % (det, sorted(changed)[:3]))
             v.sample = {"lane": lane, "fault": case["fault"], "status": res.status()}
             return v
+        if cfgfault:
+            v.fired("config-stat-error")
+            if res.exit != 0:
+                bad = sorted(changed - {"pre.rs"})
+                if bad:
+                    v.add("C13:write-despite-config-error", "the crate's rustfmt.toml could not be examined (errno %d), the run failed, yet %s changed; %s" % (cfgfault, bad[:3], det))
+                if not core.text_of(res.stderr).strip():
+                    v.add("C13:silent-failure|config-stat-error", det)
+                v.sample = {"lane": "config-stat-error", "errno": cfgfault, "status": res.status()}
+                return v
+            # tolerated: then the exclusions below still hold
         if res.exit != 0:
             # the model says this tree is fine: a failing run shows up below as reachable files left unformatted
             v.probe("run-failed")
@@ -668,11 +726,28 @@ def execute(case):
         for f in sorted(E):
             if f not in changed:
                 v.add("C13:reachable-file-not-formatted|%s" % _featclass(case, f), "%s is reachable and not excluded but was not rewritten; %s" % (f, det), file=f)
+        if backup:
+            v.probe("backup-mode")
+            # (the .bk of a file that was rewritten is a consequence; whether that file may be rewritten is judged below)
+            bks = {os.path.splitext(f)[0] + ".bk" for f in E | D | {g for g in changed if g.endswith(".rs")}}
+            if bdecoy and bdecoy in changed:
+                v.add("C13:foreign-file-written|backup-scratch-name", "%s (a neighbour no module declares) was overwritten / removed by --backup; %s" % (bdecoy, det), file=bdecoy)
+            changed = {f for f in changed if f not in bks and f != bdecoy}
         for f in sorted(changed):
             if f in X:
                 v.add("C13:excluded-file-formatted|%s" % (case["why"].get(f, "?").split(" ")[0]), "%s (%s) was rewritten; %s" % (f, case["why"].get(f), det), file=f)
             elif f not in E and f not in D:
                 v.add("C13:foreign-file-written", "%s is not part of the crate; %s" % (f, det), file=f)
+        if backup:
+            # results go through <stem>.tmp: count them for the file they are moved over
+            bystem = {}
+            for f in E | D:
+                bystem.setdefault(os.path.splitext(f)[0] + ".tmp", []).append(f)
+            o2 = {}
+            for p, n in opened.items():
+                q = bystem[p][0] if len(bystem.get(p, [])) == 1 else p
+                o2[q] = o2.get(q, 0) + n
+            opened = o2
         for f, n in sorted(opened.items()):
             if n > 1:
                 how = tw["how"] if tw and tw["file"] == f else "?"
